@@ -28,9 +28,9 @@ from vlib import log, ToolError
 
 TIERS = {
     # model-checking configurations, random cases per batch, batches (fallback = 404 page), batches with the echo
-    # backend, cases per harness/TLC run.  The backend variant (real sockets on 127.0.0.1) is thorough only.
-    "quick": dict(cfgs=["MC_Upgrade_q"], random=3000, batches=1, echo_batches=0, chunk=20000),
-    "thorough": dict(cfgs=["MC_Upgrade", "MC_Upgrade_b"], random=40000, batches=5, echo_batches=2, chunk=20000),
+    # backend, cases per harness/TLC run.  The backend variant (real sockets on 127.0.0.1): a small random batch in quick, TLC cases + large batches in thorough.
+    "quick": dict(cfgs=["MC_Upgrade_q"], random=3000, batches=1, echo_batches=1, echo_random=800, chunk=20000),
+    "thorough": dict(cfgs=["MC_Upgrade", "MC_Upgrade_b"], random=40000, batches=5, echo_batches=2, echo_random=40000, chunk=20000),
 }
 CASE_RE = re.compile(r'^<<"CASE", "(.*)">>$')
 BAD_RE = re.compile(r'^<<"BAD", (\d+), "([^"]*)", "(.*)">>$')
@@ -236,7 +236,7 @@ def check(prop, tier, seed, replay):
                 logs.append((f"random-{b}", out))
             for b in range(T["echo_batches"]):
                 out = os.path.join(work, f"random_echo_{b}.ndjson")
-                run_harness(bin_path, ["random", str(int(seed) * 1000003 + 500 + b), str(T["random"]), out, "echo"])
+                run_harness(bin_path, ["random", str(int(seed) * 1000003 + 500 + b), str(T["echo_random"]), out, "echo"])
                 logs.append((f"random-echo-{b}", out))
         t_run = time.time() - t_run
         # 3. TLC validates every logged line
@@ -350,7 +350,7 @@ def check(prop, tier, seed, replay):
                 observed={f"{a}/{b}/{c}": n for (a, b, c), n in sorted(matrix.items())},
                 undecided_single_deviations_resolved_by_the_code={f"{a} -> {b}": n for (a, b), n in sorted(undecided.items())},
                 random_lines=T["random"] * (T["batches"] + T["echo_batches"]),
-                backend_variant=dict(random_lines=T["random"] * T["echo_batches"],
+                backend_variant=dict(random_lines=T["echo_random"] * T["echo_batches"],
                                      unknown_path_answers={f"status {a}, seen by the backend: {b}": n
                                                            for (a, b), n in sorted(echo_seen.items())}),
                 trace_validation_states=tlc_states,
@@ -373,8 +373,9 @@ def check(prop, tier, seed, replay):
                 "the hyper Service is called in-process: header names are already lower-cased by the http crate, values "
                 "are not trimmed (so a PSK padded with a space reaches the gate as such); what hyper's HTTP/1 parser does "
                 "to a request before the service sees it is not exercised",
-                "quick: backend = none, the fallback is the configured 404 page; the variant with a proxied backend (local "
-                "hyper server whose answer depends on method and headers, not on the path) runs in the thorough tier only",
+                "quick: the TLC-enumerated cases run with backend = none (the fallback is the configured 404 page) and one small "
+                "random batch with a proxied backend (local hyper server whose answer depends on method and headers, not on "
+                "the path); the TLC-enumerated backend cases and the large backend batches run in the thorough tier",
                 "a 101 is checked for status, Sec-WebSocket-Protocol and Sec-WebSocket-Accept; the tunnel that the spawned "
                 "task would start is not (the upgrade extension of the test request never completes)",
                 "undecided by the property, any of {correct 101, unknown-path response} accepted: mixed duplicates, lists "
